@@ -6,3 +6,20 @@ impl Vt {
     /// [C02] invariant of the whole emulator
     pub open spec fn wf(&self) -> bool { self.parser.wf() && self.terminal.wf() }
 }
+
+/// [C12,KF] FINDING F2 (fails on the pinned tree, listed in known_findings.txt): C12 demands the
+/// same lines() whether the input is fed with feed_str or one character at a time.  feed_str
+/// ends with gc(), feed() never trims - so while the alternate screen is showing (its buffer has
+/// scrollback limit 0) feed() lets lines() grow beyond the visible rows, e.g. 8x3,
+/// "\x1b[?1049h1\r\n2\r\n3\r\n4\r\n5\r\n6": lines().len() is 3 after feed_str and 6 after feed().
+pub proof fn finding_c12_feed_does_not_trim(o: Vt, f: Vt, input: char)
+    requires
+        o.wf(),
+        post_vt_feed(o, f, input),
+        o.terminal.active_buffer_type == crate::terminal::BufferType::Alternate,
+        f.terminal.active_buffer_type == crate::terminal::BufferType::Alternate,
+        o.terminal.buffer.off() == 0,
+    ensures
+        f.terminal.buffer.off() == 0,
+{
+}
